@@ -377,7 +377,12 @@ func (r *zzC04Rig) reset(tb testing.TB) {
 // persistent builds a client the way home.jsonToClient does: fresh UID, SetIDs
 // on the identifier strings.
 func (r *zzC04Rig) persistent(name string, ids []string, own, bs bool, vals [4]bool, svcs []string) (p *Persistent, err error) {
-	ss := &zzC04SafeSearch{owner: name}
+	// As home.toPersistent / home.jsonToClient do: the client's safe-search
+	// engine exists only when its own safe search is enabled.
+	var ss filtering.SafeSearch
+	if vals[1] {
+		ss = &zzC04SafeSearch{owner: name}
+	}
 	p = &Persistent{
 		Name:                  name,
 		UID:                   MustNewUID(),
@@ -786,7 +791,7 @@ func (rn *zzC04Runner) effCode(e zzC04Eff, o *zzC04Obs) (c int) {
 	c = 4 * who
 	switch {
 	case e.Vals == rn.rig.gVals && !e.HasSS:
-	case who > 0 && e.Vals == rn.rig.ownVals[e.Who] && e.HasSS && e.SSName == e.Who:
+	case who > 0 && e.Vals == rn.rig.ownVals[e.Who] && e.HasSS == e.Vals[1] && (!e.HasSS || e.SSName == e.Who):
 		c += 2
 	default:
 		o.Bad = append(o.Bad, fmt.Sprintf("settings %+v are neither the global ones %v nor the own ones of %q", e, rn.rig.gVals, e.Who))
@@ -982,6 +987,104 @@ func zzC04RunChunk(tb testing.TB, uni *zzC04Uni, states []*zzC04State, c *zzC04C
 	}
 
 	return steps, rn.nLook, nil
+}
+
+// ------------------------------------------------- settings (pure vectors)
+
+// zzC04SetVec is one vector of specs/ClientSettings.tla: global values, one
+// client (owning address 5) with its own values and switches, and the
+// effective settings the spec demands for a request from the client's address
+// (hit) and from a foreign address (miss).
+type zzC04SetVec struct {
+	G    [4]bool     `json:"g"`
+	Gs   []string    `json:"gs"`
+	V    [4]bool     `json:"v"`
+	Cs   []string    `json:"cs"`
+	Own  bool        `json:"own"`
+	Bs   bool        `json:"bs"`
+	Hit  zzC04SetEff `json:"hit"`
+	Miss zzC04SetEff `json:"miss"`
+}
+
+type zzC04SetEff struct {
+	Who  string   `json:"who"`
+	Vals [4]bool  `json:"vals"`
+	Svcs []string `json:"svcs"`
+}
+
+var zzC04SvcOf = map[string]string{"a": "youtube", "b": "tiktok"}
+
+func zzC04Svcs(abs []string) (conc []string) {
+	conc = []string{}
+	for _, a := range abs {
+		conc = append(conc, zzC04SvcOf[a])
+	}
+
+	return conc
+}
+
+func TestZZVerifC04Settings(t *testing.T) {
+	w := zzNewWriter(t, "VERIF_OUT")
+	defer w.close()
+
+	dir := t.TempDir()
+	rigs := map[string]*zzC04Rig{}
+	n, bad := 0, 0
+	rng := rand.New(rand.NewSource(zzSeed()))
+	zzReadNDJSON(t, "VERIF_IN", func(line []byte) {
+		v := &zzC04SetVec{}
+		if err := json.Unmarshal(line, v); err != nil {
+			t.Fatalf("bad vector: %v", err)
+		}
+		n++
+		key := fmt.Sprint(v.G, v.Gs)
+		rig := rigs[key]
+		if rig == nil {
+			rig = zzC04NewRig(t, dir, v.G, zzC04Svcs(v.Gs))
+			rigs[key] = rig
+		}
+		rig.reset(t)
+		c := zzC04Conc{v: zzC04Variant{MacLen: 6, V6: rng.Intn(3) == 0, Seed: rng.Int63(), Names: rng.Intn(3), W: 4}}
+		name := c.name(1)
+		p, err := rig.persistent(name, []string{c.addr(5).String()}, v.Own, v.Bs, v.V, zzC04Svcs(v.Cs))
+		if err != nil {
+			t.Fatalf("SetIDs: %v", err)
+		}
+		if err = rig.st.Add(rig.ctx, p); err != nil {
+			t.Fatalf("Add: %v", err)
+		}
+		for i, want := range []zzC04SetEff{v.Hit, v.Miss} {
+			addr := c.addr([]int{5, 12}[i])
+			var e zzC04Eff
+			what := zzC04Try(func() { e = rig.effective("", addr) })
+			wantWho := ""
+			if want.Who != "" {
+				wantWho = name
+			}
+			if what == "" {
+				switch {
+				case e.Who != wantWho:
+					what = fmt.Sprintf("attributed to %q, spec %q", e.Who, wantWho)
+				case e.Vals != want.Vals:
+					what = fmt.Sprintf("[filtering safesearch safebrowsing parental] = %v, spec %v", e.Vals, want.Vals)
+				case !zzC04SameSet(e.Svcs, zzC04Svcs(want.Svcs)):
+					what = fmt.Sprintf("blocked services %v, spec %v", e.Svcs, zzC04Svcs(want.Svcs))
+				case e.HasSS && !(wantWho != "" && v.Own && e.SSName == name):
+					// a per-client engine may only come from the client whose own settings apply
+					what = fmt.Sprintf("safe-search engine of %q in settings attributed to %q (own=%v)", e.SSName, e.Who, v.Own)
+				case want.Vals[1] && wantWho != "" && v.Own && !e.HasSS:
+					what = "own safe search enabled but the client's engine is not in the settings"
+				}
+			}
+			if what != "" {
+				bad++
+				w.put(map[string]any{"t": "bad", "vec": v, "req": []string{"hit", "miss"}[i], "what": what, "got": e,
+					"concrete": fmt.Sprintf("global %v %v; client %q %s own=%v bs=%v vals=%v svcs=%v; request from %s",
+						v.G, zzC04Svcs(v.Gs), name, c.addr(5), v.Own, v.Bs, v.V, zzC04Svcs(v.Cs), addr)})
+			}
+		}
+	})
+	w.put(map[string]any{"t": "summary", "n": n, "bad": bad})
 }
 
 // ------------------------------------------------------------- direction B
